@@ -60,7 +60,16 @@ fn run_ops<Q: OgreQueue<u32> + Sync + 'static>(case: &Case, q: &'static Q, locs:
 /// free-running stress (no scheduler): T threads hammer a small queue with bursts of enqueues of unique values and dequeues; afterwards the
 /// queue is drained by one thread. Output: [2 0 31 accepted_enqueues returned(dequeued + drained)] [2 0 32 returned_twice never_enqueued]
 /// [2 0 33 per_producer_order_violations 0] (+ [3 tid 2] per panic)
-fn stress_run<Q: OgreQueue<u32> + Sync + 'static>(q: &'static Q, case: &Case) -> Vec<i64> {
+/// payload of the stress runs: a bare u32, or 1 KiB of words that all carry the value (a payload read while it is being written, or
+/// before it was written, shows words that differ or a value nobody enqueued)
+pub trait Pay: Send + Sync + std::fmt::Debug + 'static { fn mk(v: u32) -> Self; fn val(&self) -> u32; }
+impl Pay for u32 { fn mk(v: u32) -> Self { v } fn val(&self) -> u32 { *self } }
+#[derive(Debug, Clone, Copy)] pub struct Big([u64; 128]);
+impl Pay for Big {
+    fn mk(v: u32) -> Self { Big([v as u64; 128]) }
+    fn val(&self) -> u32 { let w = unsafe { std::ptr::read_volatile(&self.0[0]) }; if self.0.iter().all(|x| unsafe { std::ptr::read_volatile(x) } == w) && w < (1 << 31) { w as u32 } else { u32::MAX } }
+}
+fn stress_run<P: Pay, Q: OgreQueue<P> + Sync + 'static>(q: &'static Q, case: &Case) -> Vec<i64> {
     let threads = case.get("T", 4) as usize; let ops = case.get("ops", 3000) as usize; let seed = case.get("seed", 1) as u64;
     let start = std::sync::Arc::new(std::sync::Barrier::new(threads));
     let mut handles = vec![];
@@ -76,7 +85,7 @@ fn stress_run<Q: OgreQueue<u32> + Sync + 'static>(q: &'static Q, case: &Case) ->
                 while (j as usize) < ops {
                     let burst = 1 + next() % 4; let push = if tid % 2 == 0 { next() % 4 != 0 } else { next() % 4 == 0 };
                     for _ in 0..burst {
-                        if push { let v = ((tid as u32) << 20) | j; if q.enqueue(v).is_none() { pushed.push(v); } } else if let Some(v) = q.dequeue() { popped.push(v); }
+                        if push { let v = ((tid as u32) << 20) | j; if q.enqueue(P::mk(v)).is_none() { pushed.push(v); } } else if let Some(v) = q.dequeue() { popped.push(v.val()); }
                         j += 1;
                     }
                 }
@@ -96,7 +105,7 @@ fn stress_run<Q: OgreQueue<u32> + Sync + 'static>(q: &'static Q, case: &Case) ->
             Err(_) => out.extend_from_slice(&[3, tid as i64, 2]),
         }
     }
-    let drained = std::panic::catch_unwind(std::panic::AssertUnwindSafe(|| { let mut d = vec![]; for _ in 0..1000 { match q.dequeue() { Some(v) => d.push(v), None => break } } d }));
+    let drained = std::panic::catch_unwind(std::panic::AssertUnwindSafe(|| { let mut d = vec![]; for _ in 0..1000 { match q.dequeue() { Some(v) => d.push(v.val()), None => break } } d }));
     match drained { Ok(d) => returned.extend(d), Err(_) => out.extend_from_slice(&[3, 99, 2]) }
     pushed.sort(); returned.sort();
     let twice = returned.windows(2).filter(|w| w[0] == w[1]).count();
@@ -112,11 +121,21 @@ fn fullsync_stress_n<const N: usize>(case: &Case) -> Vec<i64> {
     let q: &'static full_sync::NonBlockingQueue<u32, N, 0> = Box::leak(Box::new(full_sync::NonBlockingQueue::new("q")));
     stress_run(q, case)
 }
+fn atomic_stress_big_n<const N: usize>(case: &Case) -> Vec<i64> {
+    let q: &'static atomic::NonBlockingQueue<Big, N, 0> = Box::leak(Box::new(atomic::NonBlockingQueue::new("q")));
+    stress_run(q, case)
+}
+fn fullsync_stress_big_n<const N: usize>(case: &Case) -> Vec<i64> {
+    let q: &'static full_sync::NonBlockingQueue<Big, N, 0> = Box::leak(Box::new(full_sync::NonBlockingQueue::new("q")));
+    stress_run(q, case)
+}
 
 pub fn run(case: &Case) -> Vec<i64> {
     match (case.gets("impl"), case.get("N", 4)) {
         ("atomic_stress", 2) => atomic_stress_n::<2>(case), ("atomic_stress", 4) => atomic_stress_n::<4>(case),
         ("fullsync_stress", 2) => fullsync_stress_n::<2>(case), ("fullsync_stress", 4) => fullsync_stress_n::<4>(case),
+        ("atomic_stress_big", 2) => atomic_stress_big_n::<2>(case), ("atomic_stress_big", 4) => atomic_stress_big_n::<4>(case), ("atomic_stress_big", 8) => atomic_stress_big_n::<8>(case),
+        ("fullsync_stress_big", 2) => fullsync_stress_big_n::<2>(case), ("fullsync_stress_big", 4) => fullsync_stress_big_n::<4>(case), ("fullsync_stress_big", 8) => fullsync_stress_big_n::<8>(case),
         ("atomic", 2) => atomic_n::<2>(case), ("atomic", 4) => atomic_n::<4>(case), ("atomic", 8) => atomic_n::<8>(case),
         ("fullsync", 2) => fullsync_n::<2>(case), ("fullsync", 4) => fullsync_n::<4>(case), ("fullsync", 8) => fullsync_n::<8>(case),
         (i, n) => panic!("zcq: unsupported impl={i} N={n}"),
